@@ -109,26 +109,16 @@ def r1(ctx):
     frinit = ctx.fn("connection:FragmentReceiver.__init__")
     assigns = {norm(n.targets[0]): norm(n.value) for n in walk_own(frinit.node) if isinstance(n, ast.Assign)}
     ctx.check(assigns.get("self.fragments") == "[None] * %s" % frinit.params[2], "C06.R1", frinit, "slots = [None] * count", "one slot per announced fragment", witness=assigns.get("self.fragments"))
-    # split loop: both slices use the same bound; last branch takes the whole remainder
+    # split: decided on the offset abstraction of the split phase (every byte string is represented by its [start, end) offsets
+    # into the original payload; slicing by folded constants is exact on it)
+    from .capacity import split_sweep
+    stats, finds = split_sweep(ctx)
+    what = "offset abstraction of FragmentSender.build over %d payload lengths at %d MTUs" % (stats["lengths"], stats["mtus"])
+    f = finds["sum"]
+    ctx.check(not f, "C06.R1", bld, "the fragments, in order, tile the payload exactly ([0, F), [F, 2F), ... up to its length)",
+              "no byte is dropped, duplicated or re-ordered by the split - " + what,
+              witness={"failing_cases": len(f), "first": [{"mtu": x[0], "payload_length": x[1], "fragment_offsets": x[2]} for x in f[:3]]})
     pb = bld.params[1]
-    uppers = sorted({norm(s.slice.upper) for s in cap.slice_exprs if s.slice.upper is not None and s.slice.lower is None})
-    lowers = sorted({norm(s.slice.lower) for s in cap.slice_exprs if s.slice.lower is not None and s.slice.upper is None})
-    ctx.check(len(cap.slice_exprs) == 2 and uppers == lowers and len(uppers) == 1, "C06.R1", bld, "payload[:F] is appended and payload[F:] remains (same F)",
-              "no byte is dropped or duplicated between consecutive fragments", witness={"head": uppers, "tail": lowers})
-    last_if = cap.last_test[2]
-    apps = [s for s in last_if.body if isinstance(s, ast.Expr) and isinstance(s.value, ast.Call) and norm(s.value.func) == "self.fragments.append"]
-    rest = [s for s in last_if.body if isinstance(s, ast.Assign) and norm(s.targets[0]) == pb]
-    ok = len(apps) == 1 and norm(apps[0].value.args[0]) == pb and len(rest) == 1 and norm(rest[0].value) in ("b''", 'b""', "bytes()")
-    ctx.check(ok, "C06.R1", bld, "last fragment = the whole remainder", "the final branch appends everything that is left and empties the remainder")
-    eapps = [s for s in last_if.orelse if isinstance(s, ast.Expr) and isinstance(s.value, ast.Call) and norm(s.value.func) == "self.fragments.append"]
-    erest = [s for s in last_if.orelse if isinstance(s, ast.Assign) and norm(s.targets[0]) == pb]
-    ok = len(eapps) == 1 and isinstance(eapps[0].value.args[0], ast.Subscript) and len(erest) == 1 and isinstance(erest[0].value, ast.Subscript) and \
-        last_if.orelse.index(eapps[0]) < last_if.orelse.index(erest[0])
-    ctx.check(ok, "C06.R1", bld, "intermediate fragment: append head, then keep tail", "order of the two slice statements")
-    # loop condition
-    wh = [n for n in walk_own(bld.node) if isinstance(n, ast.While)]
-    ctx.check(len(wh) == 1 and norm(wh[0].test) in ("len(%s) > 0" % pb, pb, "len(%s)" % pb, "len(%s) != 0" % pb, "len(%s) >= 1" % pb), "C06.R1", bld,
-              "split loop runs while bytes remain", witness=[norm(w.test) for w in wh])
     # emitted payload: prefix + fragment for each enumerate(self.fragments)
     fors = [n for n in walk_own(bld.node) if isinstance(n, ast.For)]
     ok = len(fors) == 1 and norm(fors[0].iter) == "enumerate(self.fragments)" and isinstance(fors[0].target, ast.Tuple)
@@ -227,10 +217,24 @@ def r3(ctx):
           lambda m, c: {"T_frag": m["T_frag"], "overhead(1)": o1, "SIZE": c.SIZE, "TAG": c.TAG, "MTU-UDP": m["mtu"] - c.UDP}, snd)
     if not ctx.require("C06.R3", bld, "oversize refusal `if len(payload) > LIMIT: raise` in FragmentSender.build", 1 if cap.limit_test is not None else 0, 1):
         return
-    sweep(ctx, "C06.R3", "LIMIT == MAX_FRAGMENT_SIZE * MAX_FRAGMENTS and count fits",
-          "the refusal threshold is the documented limit and every accepted payload needs at most MAX_FRAGMENTS fragments",
-          lambda m, c: m["LIMIT"] == m["F"] * c.MAX_FRAGMENTS and -(-m["LIMIT"] // m["F"]) <= c.MAX_FRAGMENTS,
-          lambda m, c: {"LIMIT": m["LIMIT"], "F": m["F"], "MAX_FRAGMENTS": c.MAX_FRAGMENTS}, bld)
+    if cap.build_shape:
+        sweep(ctx, "C06.R3", "LIMIT == MAX_FRAGMENT_SIZE * MAX_FRAGMENTS and count fits",
+              "the refusal threshold is the documented limit and every accepted payload needs at most MAX_FRAGMENTS fragments",
+              lambda m, c: m["LIMIT"] == m["F"] * c.MAX_FRAGMENTS and -(-m["LIMIT"] // m["F"]) <= c.MAX_FRAGMENTS,
+              lambda m, c: {"LIMIT": m["LIMIT"], "F": m["F"], "MAX_FRAGMENTS": c.MAX_FRAGMENTS}, bld)
+    # at the limit itself, on the abstraction: LIMIT is split into at most MAX_FRAGMENTS fragments, LIMIT + 1 is refused with ValueError
+    bad = []
+    for mtu in ((512, 1096, 1097, 1500) if ctx.tier == "thorough" else (1500,)):
+        m = cap.at(mtu)
+        r_ok = cap.split.split(m["LIMIT"], m["ov"])
+        r_over = cap.split.split(m["LIMIT"] + 1, m["ov"])
+        if isinstance(r_ok, tuple) or len(r_ok) > cap.MAX_FRAGMENTS or r_over != ("raise", "ValueError"):
+            bad.append({"mtu": mtu, "LIMIT": m["LIMIT"], "split(LIMIT)": r_ok if isinstance(r_ok, tuple) else "%d fragments" % len(r_ok), "split(LIMIT+1)": r_over if isinstance(r_over, tuple) else "%d fragments" % len(r_over)})
+    ctx.check(not bad, "C06.R3", bld, "a payload of exactly the limit is split into <= MAX_FRAGMENTS fragments, one byte more is refused with ValueError", witness=bad[:2])
+    from .capacity import split_sweep
+    stats, finds = split_sweep(ctx)
+    ctx.check(not finds["count"] and not finds["raises"], "C06.R3", bld, "no payload within the limit is refused or needs more than MAX_FRAGMENTS fragments",
+              witness={"count": finds["count"][:2], "raises": finds["raises"][:2]})
     # H: fragment count and index fit the prefix fields
     fields = fmt_fields(cap.prefix_site.fmt)[1]
     lo, hi = INT_RANGE[fields[2]] if len(fields) == 3 and fields[2] in INT_RANGE else (0, -1)
@@ -282,12 +286,16 @@ def r4(ctx):
     ctx.check(truthy or explicit, "C06.R4", ic, "completeness = every slot filled", witness=txt)
     if truthy:
         # then every fragment must be non-empty: appends happen inside `while len(payload) > 0` and F >= 1
-        wh = [n for n in walk_own(bld.node) if isinstance(n, ast.While)]
-        apps = [c for c in calls_named(bld, "append") if norm(c.func.value) == "self.fragments"]
-        ok = len(wh) == 1 and all(any(p is wh[0] for p in _parents(c, bld.node)) for c in apps) and len(apps) == 2
-        ctx.check(ok, "C06.R4", bld, "fragments are appended only while bytes remain", "an empty fragment would never count as received (truthiness test)")
-        sweep(ctx, "C06.R4", "L4 F >= 1 (non-empty intermediate fragments)", "a zero-width slice would produce empty fragments",
-              lambda m, c: m["F"] >= 1, lambda m, c: {"F": m["F_set"]}, bld)
+        from .capacity import split_sweep
+        stats, finds = split_sweep(ctx)
+        f = finds["empty"]
+        ctx.check(not f, "C06.R4", bld, "the split never produces an empty fragment",
+                  "the receiver's completeness test is `all(self.fragments)`: an empty fragment never counts as received, the message is never delivered "
+                  "(%d payload lengths at %d MTUs on the length abstraction)" % (stats["lengths"], stats["mtus"]),
+                  witness={"failing_cases": len(f), "first": [{"mtu": x[0], "payload_length": x[1], "last_fragment_lengths": x[2]} for x in f[:3]]})
+        if cap.build_shape:
+            sweep(ctx, "C06.R4", "L4 F >= 1 (non-empty intermediate fragments)", "a zero-width slice would produce empty fragments",
+                  lambda m, c: m["F"] >= 1, lambda m, c: {"F": m["F_set"]}, bld)
     # an empty payload is never fragmented (T_frag >= 0)
     sweep(ctx, "C06.R4", "T_frag >= 0", "the empty payload is sent unfragmented", lambda m, c: m["T_frag"] >= 0, lambda m, c: {"T_frag": m["T_frag"]}, cap.send)
 
